@@ -203,7 +203,8 @@ def read(path):
 
 def write(path, data, d):
     """data: V, E, F, C, attrs {(set, name): {"type", "dim", "values" (per item; scalar or list)}}.
-    dialect keys used: eol, float, comments (geogram's own annotations after the header tokens), trail_ws,
+    dialect keys used: eol, float, comments (geogram's own annotations after the header tokens), data_comments ('#' comments after
+    two thirds of the data values of every numeric chunk: coordinates, ptr attributes, corner vertices, user attributes), trail_ws,
     order (0: vertices, edges, facets, cells; 1: vertices, facets, cells, edges),
     extras: 'native' = what geogram writes (facet_ptr unless all triangles, corner_adjacent_facet, cell_type + cell_ptr unless
     all tetrahedra, cell_facets/adjacent_cell); 'ptr' = facet_ptr / cell_ptr always, no cell_type, no adjacency;
@@ -229,11 +230,12 @@ def write(path, data, d):
         tok('"%s"' % typ, "this is the type of the elements in this attribute")
         tok("%d" % TYPES[typ], "this is the size of an element (in bytes)")
         tok("%d" % dim, "this is the number of elements per item")
-        for v in flat:
-            if typ in ("double", "float"):
-                w.line(fmt_float(v, d["float"]))
-            else:
-                w.line("%d" % int(v))
+        dc = d.get("data_comments")  # None | "blank" (value, blanks, '#') | "tight" ('#' directly after the value)
+        for k, v in enumerate(flat):
+            txt = fmt_float(v, d["float"]) if typ in ("double", "float") else "%d" % int(v)
+            if dc and k % 3 != 2:
+                txt += ("  # " if dc == "blank" else "#") + "%s[%d]" % (aname.split("::")[-1], k)
+            w.line(txt)
 
     def user(sname):
         for (s, a), spec in attrs.items():
